@@ -93,10 +93,31 @@ func (c *Ctx) foldProved() {
 	}
 	var log []string
 	for _, f := range c.ModFns {
-		if len(f.Blocks) == 0 {
+		if len(f.Blocks) == 0 || skipNormalize[rootFn(f).String()] {
 			continue
 		}
 		did := false
+		// go/ssa has no common-subexpression elimination: every read of an
+		// address-taken variable or of a field is a load of its own. A load
+		// that provably yields what an earlier, dominating load (or store)
+		// of the same location yielded is replaced by that value, so that two
+		// tests of "the same variable" are tests of the same SSA value.
+		if c.cseLoads(f) {
+			did = true
+			foldDecided(f, decidedCond)
+			for iter := 0; iter < 100; iter++ {
+				progress := false
+				for _, x := range f.Blocks {
+					if threadBlock(f, x) {
+						progress = true
+						break
+					}
+				}
+				if !progress {
+					break
+				}
+			}
+		}
 		for iter := 0; iter < 100; iter++ {
 			F := &bfn{c: c, f: f}
 			F.computeLoadEq()
@@ -140,7 +161,7 @@ func (c *Ctx) foldProved() {
 		if did {
 			simplifyCFG(f)
 			if errs := sanity(f); len(errs) > 0 {
-				panic("dead-branch elimination produced malformed SSA in " + f.String() + ": " + errs[0])
+				panic(normFailure{rootFn(f).String(), "dead-branch elimination produced malformed SSA: " + errs[0]})
 			}
 		}
 	}
@@ -155,4 +176,37 @@ func init() {
 			}
 		}
 	}
+}
+
+// cseLoads replaces loads by the equal dominating value E8's load
+// equivalence finds (boolean and nilable values only: the ones conditions
+// are made of).
+func (c *Ctx) cseLoads(f *ssa.Function) bool {
+	F := &bfn{c: c, f: f}
+	F.computeLoadEq()
+	changed := false
+	for ld, eq := range F.loadEq {
+		u, ok := ld.(*ssa.UnOp)
+		if !ok || eq == nil || eq == ld {
+			continue
+		}
+		if !isBoolType(u.Type()) && !isNilable(u.Type()) {
+			continue
+		}
+		rep := F.rep(eq)
+		if rep == ssa.Value(u) || !types.Identical(rep.Type(), u.Type()) {
+			continue
+		}
+		if ri, isInstr := rep.(ssa.Instruction); isInstr {
+			if ri.Parent() != f || !instrDominates(ri, u) {
+				continue
+			}
+		}
+		replaceUses(f, u, rep)
+		changed = true
+	}
+	if changed {
+		finishFunc(f)
+	}
+	return changed
 }
